@@ -57,6 +57,8 @@ func scenarios(tier string) []vlib.Scenario {
 		{Policy: "immediate", Ops: []string{"wA1", "wB1"}},
 		{Policy: "immediate", Ops: []string{"wA1", "Z", "wB1"}},
 		{Policy: "none", Ops: []string{"wA2", "F", "Z", "wA1", "F"}},
+		// a write that is still buffered when Close is called on the resumed stream
+		{Policy: "none", Ops: []string{"wA1", "F", "Z", "wB1"}},
 	}
 	for _, h := range hs {
 		h.F, h.Store = 1, "default"
